@@ -6,7 +6,7 @@ import pandas as pd
 from hypothesis import strategies as st
 
 from core.outcome import Outcome, discard, observe
-from gen.objects import CARVERS, PIPELINES, STEPS, fit_object, fitted_case, make_object
+from gen.objects import CARVERS, EDIT_STRATEGY, PIPELINES, STEPS, apply_edits, fit_object, fitted_case, make_object
 from gen.samples import build
 from oracles.mapping import frames_equal, is_missing, is_num
 from oracles.views import feature_views
@@ -47,7 +47,7 @@ def strategy(tier):
                 f["dtype"] = draw(st.sampled_from(choices))
         case["probe_key"] = draw(st.integers(0, 7))
         # manually edited groups before saving (update_discretizer): [kind, feature selector, leader selector, flag]
-        case["edits"] = draw(st.lists(st.tuples(st.sampled_from(["group", "group", "replace", "nan"]), st.integers(0, 5), st.integers(0, 11), st.booleans()), max_size=3))
+        case["edits"] = draw(EDIT_STRATEGY)
         return case
 
     return build_case()
@@ -129,25 +129,10 @@ def check_case(case) -> Outcome:
     if not list(obj.features):
         return discard("no-feature-kept", out.labels)
     # ---- manual edits before saving
-    views = list(feature_views(obj, case))
-    for step, (kind, fsel, lsel, flag) in enumerate(case.get("edits", [])):
-        feat, raw, spec = views[fsel % len(views)]
-        order = obj.values_orders[feat]
-        non_nan = [l for l in order if not (isinstance(l, str) and l == "__NAN__")]
-        quantitative = spec["kind"] in ("continuous", "discrete")
-        if kind == "group" and len(non_nan) >= 2:
-            i = lsel % (len(non_nan) - 1)
-            d, k = (non_nan[i], non_nan[i + 1]) if flag else (non_nan[i + 1], non_nan[i])
-            edit = observe(obj.update_discretizer, feat, "group", d, k)
-        elif kind == "replace" and not quantitative and non_nan:
-            edit = observe(obj.update_discretizer, feat, "replace", non_nan[lsel % len(non_nan)], f"RENAMED_{step}")
-        elif kind == "nan" and non_nan and any(isinstance(l, str) and l == "__NAN__" for l in order):
-            edit = observe(obj.update_discretizer, feat, "group", float("nan"), non_nan[lsel % len(non_nan)])
-        else:
-            continue
-        if not edit.ok:
-            return discard(f"edit-raised:{edit.exc_type}", out.labels)  # edits are C17's subject
-        out.label(f"edited:{kind}")
+    ok, _, edit_labels = apply_edits(obj, case, case.get("edits", []))
+    if not ok:
+        return discard("edit-raised", out.labels)  # edits are C17's subject
+    out.label(*edit_labels)
     dumped = observe(lambda: json.dumps(obj.to_json()))
     if not dumped.ok:
         out.violate(f"to_json-not-serialisable:{dumped.bucket()}", f"json.dumps(to_json()) raised {dumped.exc!r}")
